@@ -2,6 +2,7 @@
 import os, random, importlib, glob
 
 HARNESS = "c19"
+STALE_RERUN = True   # operands also re-run as stale external polynomials (see check)
 LEVEL = "other"
 LEAKS_ARE_VIOLATIONS = True
 RULE = ("pdst/vdst/idst: operation x operands x prior content of the output (constant, polynomial in other variables, "
